@@ -216,12 +216,6 @@ func (u *Unit) runBody(st *State, body []ast.Stmt) {
 			}
 		}
 	}
-	// recover handler as first statement?
-	if len(body) > 0 {
-		if ds, ok := body[0].(*ast.DeferStmt); ok && isRecoverHandler(ds) {
-			u.handler = true
-		}
-	}
 	flow := Flow{
 		ret: func(s *State, r []Term) {
 			u.exits = append(u.exits, &Exit{st: s, results: r, fromCase: u.inCase})
@@ -235,6 +229,7 @@ func (u *Unit) runBody(st *State, body []ast.Stmt) {
 		flow.ret(s, r)
 	}
 	u.execList(body, st, flow)
+	u.runHandler(flow)
 	u.finish()
 }
 
@@ -243,16 +238,30 @@ func isRecoverHandler(ds *ast.DeferStmt) bool {
 	if !ok {
 		return false
 	}
-	found := false
-	ast.Inspect(fl.Body, func(n ast.Node) bool {
-		if c, ok := n.(*ast.CallExpr); ok {
-			if id, ok := c.Fun.(*ast.Ident); ok && id.Name == "recover" {
-				found = true
-			}
-		}
-		return true
-	})
-	return found
+	// exactly: func() { if r := recover(); r != nil { ... } }()
+	if len(fl.Body.List) != 1 {
+		return false
+	}
+	ifs, ok := fl.Body.List[0].(*ast.IfStmt)
+	if !ok || ifs.Else != nil || ifs.Init == nil {
+		return false
+	}
+	as, ok := ifs.Init.(*ast.AssignStmt)
+	if !ok || len(as.Lhs) != 1 || len(as.Rhs) != 1 {
+		return false
+	}
+	call, ok := as.Rhs[0].(*ast.CallExpr)
+	if !ok {
+		return false
+	}
+	if id, ok := call.Fun.(*ast.Ident); !ok || id.Name != "recover" {
+		return false
+	}
+	cond, ok := ifs.Cond.(*ast.BinaryExpr)
+	if !ok || cond.Op != token.NEQ {
+		return false
+	}
+	return true
 }
 
 // finish emits the exit obligations of the unit.
